@@ -78,6 +78,7 @@ type value struct {
 	pre      []string
 	kind     string
 	wrap     string // loop header the use of the value is placed in (the value is its loop variable)
+	varLevel int    // for literals that contain a variable: its nesting level (1 = direct element)
 }
 
 func basicLit(t *m.Type, alt bool) string {
@@ -226,16 +227,56 @@ func constExprs(t *m.Type) []value {
 	}...)
 }
 
+// anyVariant returns S with the type at nesting level n replaced by any.
+func anyVariant(S *m.Type, n int) *m.Type {
+	if n <= 0 || !S.Composite() {
+		return m.TAny
+	}
+	return &m.Type{K: S.K, Sub: anyVariant(S.Sub, n-1)}
+}
+
+// elementwise reports whether assigning v (a literal that contains a variable) to T is a
+// conversion that happens element by element above the variable: T is v's type with any at
+// a level that does not reach into a composite variable. The specification rejects these
+// (the literal is not a constant); the parser's notion of constant is per element (finding F26).
+func elementwise(T *m.Type, v value) bool {
+	if v.varLevel == 0 || T.K == m.Any || T.Eq(v.ty) {
+		return false
+	}
+	for n := 1; n <= v.varLevel; n++ {
+		if T.Eq(anyVariant(v.ty, n)) {
+			return strings.HasSuffix(v.kind, ":basic") || n < v.varLevel
+		}
+	}
+	return false
+}
+
+func varClass(t *m.Type) string {
+	if t.Basic() {
+		return "basic"
+	}
+	return "composite"
+}
+
 // expressions over variables: treated like variables
 func varExprs(t *m.Type) []value {
 	out := []value{{src: "(s)", ty: t, pre: []string{"s:" + t.String()}, kind: "var-expr:group"}}
 	if t.K == m.Arr && t.Sub.K != m.Any {
 		// a composite literal that contains a variable is not a constant
-		out = append(out, value{src: "[e " + lit(t.Sub) + "]", ty: t, pre: []string{"e:" + t.Sub.String()}, kind: "literal-with-variable"},
-			value{src: "[" + lit(t.Sub) + " e]", ty: t, pre: []string{"e:" + t.Sub.String()}, kind: "literal-with-variable"})
+		out = append(out, value{src: "[e " + lit(t.Sub) + "]", ty: t, pre: []string{"e:" + t.Sub.String()}, kind: "literal-with-variable:" + varClass(t.Sub), varLevel: 1},
+			value{src: "[" + lit(t.Sub) + " e]", ty: t, pre: []string{"e:" + t.Sub.String()}, kind: "literal-with-variable:" + varClass(t.Sub), varLevel: 1})
 	}
 	if t.K == m.Map && t.Sub.K != m.Any {
-		out = append(out, value{src: "{a:e b:" + lit(t.Sub) + "}", ty: t, pre: []string{"e:" + t.Sub.String()}, kind: "literal-with-variable"})
+		out = append(out, value{src: "{a:e b:" + lit(t.Sub) + "}", ty: t, pre: []string{"e:" + t.Sub.String()}, kind: "literal-with-variable:" + varClass(t.Sub), varLevel: 1})
+	}
+	if t.K == m.Arr && t.Sub.Composite() && t.Sub.Sub.K != m.Any {
+		// the variable sits one level further down
+		inner := "[e]"
+		if t.Sub.K == m.Map {
+			inner = "{a:e}"
+		}
+		out = append(out, value{src: "[" + inner + " " + lit(t.Sub) + "]", ty: t, pre: []string{"e:" + t.Sub.Sub.String()}, kind: "literal-with-nested-variable:" + varClass(t.Sub.Sub), varLevel: 2},
+			value{src: "[" + lit(t.Sub) + " " + inner + "]", ty: t, pre: []string{"e:" + t.Sub.Sub.String()}, kind: "literal-with-nested-variable:" + varClass(t.Sub.Sub), varLevel: 2})
 	}
 	if t.K == m.Arr {
 		out = append(out,
@@ -394,7 +435,11 @@ func emitCell(ctx string, T *m.Type, v value, emit func(Case)) {
 		src = useAll(v.pre) + src
 		src = reorderPre(src, v.pre)
 	}
-	emit(Case{Src: src, Cell: fmt.Sprintf("%s: %s <- %s %s (%s)", ctx, T, v.kind, v.ty, v.src), Accept: ok, Typeof: typeof, Why: why})
+	kind := v.kind
+	if elementwise(T, v) {
+		kind += ":elementwise"
+	}
+	emit(Case{Src: src, Cell: fmt.Sprintf("%s: %s <- %s %s (%s)", ctx, T, kind, v.ty, v.src), Accept: ok, Typeof: typeof, Why: why})
 }
 
 // reorderPre moves the "print helpers" line behind the declarations it uses.
@@ -680,6 +725,17 @@ func TestSampled(t *testing.T) {
 		}
 		T := deep[rapid.IntRange(0, len(deep)-1).Draw(t, "T")]
 		S := deep[rapid.IntRange(0, len(deep)-1).Draw(t, "S")]
+		if rapid.Bool().Draw(t, "relatedT") {
+			// the interesting pairs: T is S with some level replaced by any, or one level off
+			rel := []*m.Type{S, m.ArrOf(S), m.MapOf(S)}
+			if S.Sub != nil {
+				rel = append(rel, S.Sub)
+			}
+			for n := 0; n <= S.Depth(); n++ {
+				rel = append(rel, anyVariant(S, n))
+			}
+			T = rel[rapid.IntRange(0, len(rel)-1).Draw(t, "rel")]
+		}
 		vals := []value{varOf(S)}
 		vals = append(vals, varExprs(S)...)
 		if S.K != m.Any {
